@@ -111,13 +111,16 @@ def check_revenue_fn(ctx) -> None:
     where = f'{rel}:{s2.line}'
     r2 = s2.loops[0]
     j = Rat.atom(r2.var)
-    ctx.check(_eq(r2.start, C) and _eq(r2.stop, L + C) and _eq(r2.step, ONE), 'K1', 'CalculateRevenue/CummCashFlow/range', where,
-              f'cumulative revenue runs over {r2.show()}')
+    # as above, in terms of the target index k = loop variable + offset (a loop over operating years writing cum[C + y] is the same loop)
+    idx2 = tr.tr(s2.index)
+    shift2 = idx2 - j
+    ctx.require(r2.var not in shift2.show(40), f'CalculateRevenue: cumulative target index `{norm(s2.index)}` is not the loop variable plus an offset (cannot decide)')
+    ctx.check(_eq(r2.start + shift2, C) and _eq(r2.stop + shift2, L + C) and _eq(r2.step, ONE), 'K1', 'CalculateRevenue/CummCashFlow/range', where,
+              f'cumulative revenue is written for target years [{(r2.start + shift2).show()}, {(r2.stop + shift2).show()}); operating years are [C, L + C)')
     ok = isinstance(s2.value, ast.BinOp) and isinstance(s2.value.op, ast.Add)
     if ok:
         parts = {norm(x.value): tr.tr(x.slice) for x in (s2.value.left, s2.value.right) if isinstance(x, ast.Subscript)}
-        ok = set(parts) == {'CummCashFlow', 'CashFlow'} and _eq(parts['CummCashFlow'], j - ONE) and _eq(parts['CashFlow'], j) and \
-            _eq(tr.tr(s2.index), j)
+        ok = set(parts) == {'CummCashFlow', 'CashFlow'} and _eq(parts['CummCashFlow'], idx2 - ONE) and _eq(parts['CashFlow'], idx2)
     ctx.check(ok, 'K1', 'CalculateRevenue/CummCashFlow/recurrence', where,
               f'cumulative series is `{norm(s2.stmt)}`; expected cum[i] = cum[i-1] + rev[i]')
     rets = [x for x in ast.walk(f.node) if isinstance(x, ast.Return)]
